@@ -10,7 +10,9 @@ budget; afterwards a tree walker checks
   2 the bbox of every line, box and group is exactly the union of its members';
   3 a line is horizontal or vertical (vertical only with detect_vertical), ends
     in exactly one LTAnno("\\n"), other inserted LTAnno are single spaces between
-    two glyphs; a box holds lines of its own orientation only;
+    two glyphs; consecutive glyphs of a horizontal line share a y-interval of
+    positive length (x-interval in a vertical line); a box holds lines of its
+    own orientation only;
   4 lines in a box: y1 non-increasing (x1 non-increasing in vertical boxes);
   5 text boxes carry index 0..n-1 in iteration order of their container;
   6 get_text() of every line / box / group == concatenation of its members';
@@ -43,7 +45,7 @@ TECHNIQUE = ("runtime monitoring: postcondition wrapper on LTLayoutContainer.ana
 RULE = (
     "(a) scenes: a page box (letter, tiny, zero, negative origin, 2048^2, off-origin) with 0-400 glyph boxes drawn from blocks "
     "(paragraphs with aligned/ragged lines and word gaps, grids incl. touching/overlapping cells, vertical columns, overlapping "
-    "piles, stairs, zero-width/zero-height boxes, blank/empty/odd text, tiny glyphs, scatter, off-page/straddling/far (+-1e6) "
+    "piles, stairs, corner-turning runs (horizontal run then glyphs stacked under/over its last glyph, and transposed), zero-width/zero-height boxes, blank/empty/odd text, tiny glyphs, scatter, off-page/straddling/far (+-1e6) "
     "and huge glyphs, duplicates at identical positions; kept, reversed or shuffled order), interleaved with LTRect/LTLine/"
     "LTCurve/LTImage and figures (glyphs inside, nested to depth 3); all coordinates dyadic. LAParams families: default, typical, "
     "extreme (0, 2^-20, 1e-9, 1e6, 2^20), zero, huge, flow_none, flow_float, vertical, all_texts; boxes_flow in "
@@ -74,13 +76,13 @@ def minimums(tier: str) -> Dict[str, int]:
         return {"evaluations": 2500, "distinct": 2400, "analyze_invocations": 4000, "pages_analysed": 2500, "budgeted_analyses": 2500,
                 "items_conserved:glyph": 100000, "items_conserved:other": 8000, "containers_walked:line": 50000,
                 "containers_walked:box": 30000, "containers_walked:group": 20000, "boxes_index_checked": 30000,
-                "group_leaves_checked": 20000, "seen:la_family": 9, "seen:blocks": 12, "pdf_pages": 100, "sample_pages": 40,
+                "group_leaves_checked": 20000, "seen:la_family": 9, "seen:blocks": 13, "block:corner": 600, "line_pairs_overlap_checked:H": 40000, "line_pairs_overlap_checked:V": 3000, "pdf_pages": 100, "sample_pages": 40,
                 "stress_pages": 4, "analyze_invocations:LTFigure": 1200, "containers_walked:unanalysed_figure": 1000,
                 "multi_line_boxes:V": 40, "multi_line_boxes:H": 2500, "lines_outside_boxes": 4000, "inserted_spaces": 3000}
     return {"evaluations": 40000, "distinct": 38000, "analyze_invocations": 70000, "pages_analysed": 45000, "budgeted_analyses": 45000,
             "items_conserved:glyph": 2500000, "items_conserved:other": 150000, "containers_walked:line": 900000,
             "containers_walked:box": 600000, "containers_walked:group": 400000, "boxes_index_checked": 600000,
-            "group_leaves_checked": 400000, "seen:la_family": 9, "seen:blocks": 12, "pdf_pages": 3000, "sample_pages": 250,
+            "group_leaves_checked": 400000, "seen:la_family": 9, "seen:blocks": 13, "block:corner": 10000, "line_pairs_overlap_checked:H": 700000, "line_pairs_overlap_checked:V": 60000, "pdf_pages": 3000, "sample_pages": 250,
             "stress_pages": 8, "analyze_invocations:LTFigure": 25000, "containers_walked:unanalysed_figure": 20000,
             "multi_line_boxes:V": 1500, "multi_line_boxes:H": 50000, "lines_outside_boxes": 90000, "inserted_spaces": 70000}
 
